@@ -301,7 +301,7 @@ func collectRegistries(p *Prog) []*registryPair {
 }
 
 func checkC14(r *Run) {
-	r.Explanation = "Structural necessary conditions of 'streams end definitely, with the handler's error, on every transport': (R1) for every errors.Register(encode, decode) pair, each (sentinel or concrete type -> payload type) the encoder produces is mapped back by the decoder to an error rooted at the same sentinel / of the same type, and no other registry's decoder claims that payload type first; (R2) after the handler returns, the in-memory server stream sends exactly one terminal message carrying the handler's encoded error with a plain (unconditional, blocking) send on every path; the WebSocket server closes the stream with the handler's error on every path, and skips the typed close payload only for context.Canceled; the gRPC handler returns the encoded handler error unless it is nil/EOF; (R3) every Receive that has a terminal-result field stores a decoded terminal error in it before returning it and returns the field first when set; CloseSend marks the sending side closed before sending; gRPC adapters translate every transport error; (R4) the WebSocket stream core closes its shutdown channel at most once."
+	r.Explanation = "Structural necessary conditions of 'streams end definitely, with the handler's error, on every transport': (R1, information only: a table-shape extractor that a rewrite of an encoder as a switch or a table loop defeats) whether each (sentinel or concrete type -> payload type) an encoder produces is mapped back by its decoder to the same kind and claimed by no other registry; (R2) after the handler returns, the in-memory server stream sends exactly one terminal message carrying the handler's encoded error with a plain (unconditional, blocking) send on every path; the WebSocket server closes the stream with the handler's error on every path, and skips the typed close payload only for context.Canceled; the gRPC handler returns the encoded handler error unless it is nil/EOF; (R3) every Receive that has a terminal-result field stores a decoded terminal error in it before returning it and returns the field first when set; CloseSend marks the sending side closed before sending; gRPC adapters translate every transport error; (R4) the WebSocket stream core closes its shutdown channel at most once."
 	r.NotDecided = "Ordering/no-duplication of data messages (delegated to Go channels, gorilla/websocket and grpc-go: trusted base); timing races of close handshakes."
 	r.Trusted = []string{"go/types, go/cfg", "Go channel, gorilla/websocket and grpc-go ordering"}
 	r.Extra["module"] = "core"
